@@ -20,7 +20,7 @@ import (
 
 // DOp is one step of the history.
 type DOp struct {
-	Op string `json:"op"`           // r | w | rw (set deadline) | cr | cw | crw (clear) | write | writebig | sleep | close | peerread
+	Op string `json:"op"`           // r | w | rw (set deadline) | cr | cw | crw (clear) | write | writebig | sleep | close | caf (CloseAfterFlush) | peerread
 	Us int    `json:"us,omitempty"` // deadline distance / sleep duration in microseconds
 }
 
@@ -57,6 +57,9 @@ func genDeadCase0(r *simrt.Rand, tier string) *DeadCase {
 		n = r.Range(2, 14)
 	}
 	kinds := []string{"r", "w", "rw", "r", "w", "cr", "cw", "crw", "write", "writebig", "sleep", "sleep", "peerread", "close"}
+	if r.Bool(0.2) {
+		kinds = append(kinds, "caf", "caf", "writebig")
+	}
 	for i := 0; i < n; i++ {
 		op := DOp{Op: kinds[r.Intn(len(kinds))]}
 		switch op.Op {
@@ -284,6 +287,19 @@ func runDead(t *testing.T, ci interface{}, trace bool) *common.Outcome {
 				nc.Close()
 				supersede('r', time.Now())
 				supersede('w', time.Now())
+			case "caf":
+				// CloseAfterFlush: closes now when nothing is queued (like Close), otherwise when
+				// the backlog has been written - until then the connection is open and its deadlines
+				// stay in force (a peer that stops reading is still cut off by them)
+				nc.CloseAfterFlush()
+				otherCause = true
+				if cl, _ := nc.IsClosed(); cl {
+					appClosed = true
+					supersede('r', time.Now())
+					supersede('w', time.Now())
+				} else {
+					o.Probe("close_after_flush_deferred")
+				}
 			}
 			// a deadline within one step of expiring when it is renewed or cleared
 			for _, e := range hist {
